@@ -178,7 +178,7 @@ PROPS = {
         level_text="bounded exploration through the symbolic executor: the tag lexer is stubbed so that every struct field yields an arbitrary sequence of up to T tokens of the tag alphabet; the real parseType / parseDisjunction / parseSequence / parseTerm / parseModifier / parseCapture / parseGroup / lookahead / negation / literal code, struct.go's structLexer and validate/visit run on every such token sequence and must return a node xor an error and never panic; the positive direction (documented grammars build) is asserted by every C01 run. Honest accounting: the tag alphabet is finite, so the solver only decides the feasibility of the choices; the exploration is exhaustive within the bound",
         level_note="trusted: the stub contract (text/scanner + textScannerTransform turn the rendered tag text into exactly the chosen tokens) — validated on every run because sampled paths and every counterexample are replayed natively with real struct tags lexed by the real scanner; reflect.StructOf is modelled over go/types; bounds below",
         runs=[dict(pkg=".", files=["root/zz_verif_ref.go", "root/zz_verif_ggcore.go", "root/zz_verif_parse.go", "root/zz_verif_grammars.go", "root/zz_verif_build.go"], harness="^VH_C19_", samples=12,
-                   reach={"VH_C19_FieldTypes": ["built", "rejected"], "VH_C19_Soup1": ["built", "rejected"], "VH_C19_Soup2": ["built", "rejected"]})],
+                   reach={"VH_C19_FieldTypes": ["built", "rejected"], "VH_C19_TagBytes": ["built", "rejected"], "VH_C19_Soup1": ["built", "rejected"], "VH_C19_Soup2": ["built", "rejected"]})],
         bounds=dict(quick="one field: all sequences of 1..3 tokens over a 15-token alphabet (@ ! ~ ? * + ( ) [ ] | : known ident, unknown ident, string) x 6 field types (string, *Struct, []string, bool, map, interface); two fields: all sequences of 1..2 tokens per field over an 8-token alphabet x 3 field types",
                     thorough="one field: 1..4 tokens over the 22-token alphabet (adds { } = , char, raw string, int) x 11 field types; two fields: 1..3 tokens per field"),
         outside="tokenisation of arbitrary tag characters by text/scanner (stub); recursive struct types and reflect shapes beyond the list; tags longer than the bound",
@@ -190,7 +190,7 @@ PROPS = {
         level_text="bounded exploration through the symbolic executor, two halves: (1) for every instance of a template of two mutually referring productions (recursive reference in the first or a later alternative, after optional / lookahead / non-empty prefixes, inside groups, captures and lookahead groups, through the other production) the real validate/visit/isLeftRecursive run on the directly constructed node graph and are compared with a reference analysis (nullable + leftmost-call graph + cycle search); (2) every instance that validate accepts is parsed on a symbolic token stream under a monitor around (*strct).Parse asserting that no production is re-entered at the same cursor (solver-decided on token texts and the lookahead)",
         level_note="trusted: the reference analysis (half 1) - cross-checked by the independent run-time monitor (half 2); node graphs are built as parseSequence/parseDisjunction shape them (head flags, collapsing of singletons); the template's selectors are finite, so for half 1 the solver decides feasibility only; bounds below",
         runs=[dict(pkg=".", files=["root/zz_verif_ref.go", "root/zz_verif_ggcore.go", "root/zz_verif_parse.go", "root/zz_verif_grammars.go", "root/zz_verif_graph.go"], harness="^VH_C08_",
-                   reach={"VH_C08_Validate": ["left-recursive", "not-left-recursive"], "VH_C08_ValidateWide": ["left-recursive", "not-left-recursive"], "VH_C08_Parse": ["accepted-by-validate", "parsed", "rejected"]})],
+                   reach={"VH_C08_Validate": ["left-recursive", "not-left-recursive"], "VH_C08_ValidateWide": ["left-recursive", "not-left-recursive"], "VH_C08_ValidateThree": ["left-recursive", "not-left-recursive"], "VH_C08_Parse": ["accepted-by-validate", "parsed", "rejected"]})],
         bounds=dict(quick="root production: 1-2 alternatives, <= 2 terms in the first and 1 in the second, 9 term kinds (literal, lit?, (?= lit), ~lit, @@self, @@other, (@@self)?, (?= @@self), (lit?)!); second production: 1-2 terms from {literal, lit?, @@self, @@root}: 18 000 grammars; parse half: streams <= 3 tokens, lookahead any int",
                     thorough="second alternative <= 2 terms, 14 term kinds (adds lit*, lit+, (?! lit), (@@self), ~(@@other)); streams <= 4 tokens"),
         outside="grammars outside the template (3+ productions, unions, deeper nesting); the front end that builds the graph from tags is covered by C01/C19",
@@ -214,7 +214,7 @@ PROPS = {
         level="model_checking",
         level_text="decided through a sufficient condition, not by enumerating schedules: (1) frame condition: after Build / lexer.New / package init every object reachable from the Parser, the lexer Definition and the package-level EBNF parser is frozen in the executor; on every feasible path of Parse*/Lex/String and LexString+Next over symbolic inputs a store into a frozen cell, a write to a frozen map or an append into a frozen slice's spare capacity ends the path as a violation, so concurrent calls work on disjoint mutable memory; (2) history independence: the same call repeated on the same object returns the same result, and for back-reference definitions lexing after an arbitrary earlier input equals lexing with a fresh definition (transparency of the one shared mutable structure, the sync.Map cache)",
         level_note="trusted: sync.Map is linearizable and *regexp.Regexp / reflect caches are safe for concurrent use (stdlib contracts); the executor's heap model (cells = Go variables; maps and slices tracked as described); real interleavings and the race detector are outside this technique; bounds as C01/C03",
-        runs=[dict(pkg=".", files=["root/zz_verif_ref.go", "root/zz_verif_ggcore.go", "root/zz_verif_parse.go", "root/zz_verif_grammars.go", "root/zz_verif_entry.go", "root/zz_verif_conc.go"], harness="^VH_C09_", reach={"VH_C09_Parse_Alt": ["accepted", "rejected"], "VH_C09_Parse_Union": ["accepted"]}),
+        runs=[dict(pkg=".", files=["root/zz_verif_ref.go", "root/zz_verif_ggcore.go", "root/zz_verif_parse.go", "root/zz_verif_grammars.go", "root/zz_verif_entry.go", "root/zz_verif_conc.go", "root/zz_verif_map.go"], harness="^VH_C09_", reach={"VH_C09_Parse_Alt": ["accepted", "rejected"], "VH_C09_Parse_Union": ["accepted"], "VH_C09_Parse_Mapped": ["mapped"]}),
               dict(pkg="lexer", files=["lexer/zz_verif_stateful.go", "lexer/zz_verif_lexdefs.go", "lexer/zz_verif_lexgen.go", "lexer/zz_verif_conc.go"], harness="^VH_C09_",
                    reach={"VH_C09_Frame_PushPop": ["lexed", "error"], "VH_C09_History_Backref": ["compared"], "VH_C09_History_Collide": ["compared"]}),
               dict(pkg="ebnf", files=["ebnf/zz_verif_ebnf.go", "root/zz_verif_ggcore.go"], harness="^VH_C09_", reach={"VH_C09_EBNFParser": ["parsed", "failed"]})],
@@ -228,7 +228,7 @@ PROPS = {
         level="model_checking",
         level_text="relational bounded model checking by symbolic execution: Trace on/off (same AST and error), ParseFromLexer leaves the caller's lexer at the first unconsumed token (compared with the reference semantics' end position), Parse(reader) / ParseString / ParseBytes / ParseFromLexer over the parser's own lexer return the same AST and the same error for every symbolic input, Parser.Lex returns the tokens the parse consumes (also with an Upper mapper, which only implements Lex), and a definition's Lex and LexString yield identical streams",
         level_note="trusted: io.Copy / strings.Reader / bytes.Reader models (the writer receives exactly the reader's bytes, no error), fmt model for trace output, reference matcher for regexp on symbolic input; default text/scanner lexer content is outside (routing only)",
-        runs=[dict(pkg=".", files=["root/zz_verif_ref.go", "root/zz_verif_ggcore.go", "root/zz_verif_parse.go", "root/zz_verif_grammars.go", "root/zz_verif_entry.go", "root/zz_verif_conc.go"], harness="^VH_C15_",
+        runs=[dict(pkg=".", files=["root/zz_verif_ref.go", "root/zz_verif_ggcore.go", "root/zz_verif_parse.go", "root/zz_verif_grammars.go", "root/zz_verif_entry.go", "root/zz_verif_conc.go", "root/zz_verif_map.go"], harness="^VH_C15_",
                    reach={"VH_C15_Routing": ["parsed", "failed"], "VH_C15_RoutingMapped": ["parsed", "failed"], "VH_C15_Trace_Alt": ["traced"], "VH_C15_Cursor_Seq": ["accept"], "VH_C15_LexEntryPoints": ["lexed"], "VH_C15_RoutingDefault": ["parsed", "failed"], "VH_C15_LexEntryPointsDefault": ["lexed", "lex-error"]})],
         bounds=dict(quick="Trace/cursor: 6 grammar x configuration pairs, streams <= 5 tokens; routing: stateful lexer (Ident/Num/elided ws) + grammar, inputs <= 3 arbitrary bytes, filename in {\"\", \"f\"}, with and without Upper(\"Ident\")",
                     thorough="streams <= 6 tokens; inputs <= 4 bytes"),
@@ -260,7 +260,7 @@ import re as _re
 import subprocess as _sp
 
 C05_DEFS = ["Literal", "Overlap", "Classes", "Dot", "Multibyte", "Anchors", "Alternation", "Fold", "PushPop", "String",
-            "Return", "ReturnNested", "ReturnSelf", "IncludeFirst", "IncludeMiddle", "IncludeNested", "IncludeDiamond", "MultiLine", "Astral", "OddNames", "PopInRoot", "ReturnInRoot", "OptionalGroupPush",
+            "Return", "ReturnNested", "ReturnSelf", "IncludeFirst", "IncludeMiddle", "IncludeNested", "IncludeDiamond", "MultiLine", "Astral", "OddNames", "LiteralMB", "PopInRoot", "ReturnInRoot", "OptionalGroupPush",
             "ElidedActions", "NullableStar", "Possessive", "Repeat", "EmptyAlt", "NoWordBoundary", "EndAnchors", "FoldClass", "DotAll", "NonASCIILit", "NegClass"]
 
 C05_GENERATED = {"quick": 24, "thorough": 120}
